@@ -6,6 +6,7 @@ import (
 	"go/constant"
 	"go/token"
 	"go/types"
+	"sort"
 )
 
 const (
@@ -576,8 +577,53 @@ func commitUndoRules(c *Ctx, r1, r2, r3, r5, r4 string) {
 			}
 		}
 		c.Check(found, r1, "log replay: "+row.step+" undone by "+shortKey(undo[0]), rg.n.Ast.Pos(), "the replay block calls the undo function", "the replay block no longer calls "+shortKey(undo[0]), nil)
+		// sibling agreement: the replay undoes the step in every last-logged state in which the live
+		// rollback undoes it (a `lastCommittedFunctionLog OP K` gate of the undo call may be wider, never narrower)
+		if lg != nil {
+			starts := branchStarts([]*GNode{rg.n}, 1)
+			stop := func(n *GNode) bool {
+				for _, g2 := range replayKey {
+					if g2.n == n && g2.n != rg.n {
+						return true
+					}
+				}
+				return n.RangeHead != nil
+			}
+			stepVal, okS := constInt(ko)
+			narrower := ""
+			var at *GNode
+			for _, gl := range replayLast {
+				if !r.Seen[gl.n.ID] {
+					continue
+				}
+				// does gl gate the undo call? cut its true edge and see whether the call is still reachable
+				r2 := gt.Reach(starts, stop, edgeCut([]*GNode{gl.n}, 1))
+				gates := false
+				for _, x := range gt.Nodes {
+					if r.Seen[x.ID] && calls(undo...)(x) && !r2.Seen[x.ID] {
+						gates = true
+					}
+				}
+				kv, okK := constInt(gl.k)
+				if !gates || !okS || !okK {
+					continue
+				}
+				for _, st := range constsOfBlock(w, ko) {
+					sv, _ := constInt(st)
+					if sv >= stepVal && holdsOp(sv, lg.op, stepVal) && !holdsOp(sv, gl.op, kv) {
+						narrower = fmt.Sprintf("a transaction that died with `%s` as its last logged step is undone by the live rollback (`committedState %s %s`) but skipped by the replay (`lastCommittedFunctionLog %s %s`)", st.Name(), lg.op, row.step, gl.op, gl.k.Name())
+						at = gl.n
+						break
+					}
+				}
+			}
+			pos := rg.n.Ast.Pos()
+			if at != nil {
+				pos = at.Ast.Pos()
+			}
+			c.Check(narrower == "", r1, "log replay: "+row.step+" is undone in every state the live rollback undoes it", pos, "replay gate is at least as wide as the live guard", narrower+": what the dead transaction did in that step is never undone and its log is removed", nil)
+		}
 	}
-	_ = replayLast
 	// the live rollback consults every guard on every path: no early return between guards
 	{
 		early := gr.condNodes(func(e ast.Expr) bool {
@@ -772,4 +818,61 @@ func rootBlobBeforeHandleRule(c *Ctx, r7 string) {
 	}
 	c.Offences(g, offs, r7, "commitNewRootNodes: the root blob is written before the root handle is registered", f.Decl.Pos(), "blobStore.Add precedes registry.Add, which is unreachable when the blob write failed",
 		"the root handle can be registered before (or without) its blob: a fault at the blob write leaves a registered root with no blob - readers resolve StoreInfo.RootNodeID to a node that does not load, and no later transaction can ever create that root")
+}
+
+func constInt(o types.Object) (int64, bool) {
+	k, ok := o.(*types.Const)
+	if !ok {
+		return 0, false
+	}
+	return constant.Int64Val(constant.ToInt(k.Val()))
+}
+
+// constsOfBlock lists the constants declared in the same const ( ... ) block as k, by value.
+func constsOfBlock(w *World, k types.Object) []*types.Const {
+	var out []*types.Const
+	for _, p := range w.Pkgs {
+		if p.Types != k.Pkg() {
+			continue
+		}
+		for _, file := range p.Syntax {
+			for _, d := range file.Decls {
+				gd, ok := d.(*ast.GenDecl)
+				if !ok || gd.Tok != token.CONST || k.Pos() < gd.Pos() || k.Pos() > gd.End() {
+					continue
+				}
+				for _, sp := range gd.Specs {
+					for _, nm := range sp.(*ast.ValueSpec).Names {
+						if cst, ok := p.TypesInfo.Defs[nm].(*types.Const); ok {
+							out = append(out, cst)
+						}
+					}
+				}
+			}
+		}
+	}
+	sort.SliceStable(out, func(i, j int) bool {
+		a, _ := constInt(out[i])
+		b, _ := constInt(out[j])
+		return a < b
+	})
+	return out
+}
+
+func holdsOp(a int64, op token.Token, b int64) bool {
+	switch op {
+	case token.GTR:
+		return a > b
+	case token.GEQ:
+		return a >= b
+	case token.LSS:
+		return a < b
+	case token.LEQ:
+		return a <= b
+	case token.EQL:
+		return a == b
+	case token.NEQ:
+		return a != b
+	}
+	return true
 }
